@@ -146,6 +146,49 @@ theorem cylinderTris_len (sides : Nat) (top bottom : Bool) : (cylinderTris sides
   simp only [cylinderTris, List.length_append]
   cases top <;> cases bottom <;> simp <;> omega
 
+/-! ### extrusion of a shape along a path -/
+
+theorem extrudeRing_lt {bottom top sides n : Nat} (hb : bottom + sides ≤ n) (ht : top + sides ≤ n) :
+    ∀ i ∈ extrudeRing bottom top sides, i < n := by
+  intro i hi
+  simp only [extrudeRing, List.mem_flatMap, List.mem_range, List.mem_cons, List.not_mem_nil, or_false] at hi
+  obtain ⟨s, hs, hi⟩ := hi
+  by_cases h0 : s = 0
+  · subst h0
+    simp only [if_true] at hi
+    rcases hi with rfl | rfl | rfl | rfl | rfl | rfl <;> omega
+  · simp only [h0, if_false] at hi
+    rcases hi with rfl | rfl | rfl | rfl | rfl | rfl <;> omega
+
+theorem extrudeRing_len (bottom top sides : Nat) : (extrudeRing bottom top sides).length % 3 = 0 :=
+  length_flatMap_mod3 _ _ (fun _ _ => by simp)
+
+theorem extrudeShapeTris_lt {pathLen sides : Nat} (close : Bool) :
+    ∀ i ∈ extrudeShapeTris pathLen sides close, i < extrudeShapeVerts pathLen sides := by
+  intro i hi
+  simp only [extrudeShapeTris, List.mem_flatMap, List.mem_range] at hi
+  obtain ⟨p, hp, hi⟩ := hi
+  have h1 : (p + 1) * sides = p * sides + sides := Nat.succ_mul _ _
+  have h2 : (p + 1) * sides ≤ pathLen * sides := Nat.mul_le_mul_right _ (by omega)
+  unfold extrudeShapeVerts
+  split at hi
+  · cases close
+    · simp at hi
+    · simp only [if_true] at hi
+      exact extrudeRing_lt (by omega) (by omega) i hi
+  · rename_i hne
+    have h3 : (p + 1 + 1) * sides = (p + 1) * sides + sides := Nat.succ_mul _ _
+    have h4 : (p + 1 + 1) * sides ≤ pathLen * sides := Nat.mul_le_mul_right _ (by omega)
+    exact extrudeRing_lt (by omega) (by omega) i hi
+
+theorem extrudeShapeTris_len (pathLen sides : Nat) (close : Bool) :
+    (extrudeShapeTris pathLen sides close).length % 3 = 0 := by
+  apply length_flatMap_mod3
+  intro p _
+  split
+  · cases close <;> simp [extrudeRing_len]
+  · exact extrudeRing_len _ _ _
+
 /-! ### fixed tables -/
 
 theorem quadTris_ok : (∀ i ∈ quadTris, i < quadVerts) ∧ quadTris.length % 3 = 0 := by decide
